@@ -106,7 +106,37 @@ pub fn install_panic_hook() {
         } else {
             "<non-string panic>".to_string()
         };
-        let (file, line) = info.location().map_or(("<unknown>".to_string(), 0), |l| (l.file().to_string(), l.line()));
+        let (mut file, mut line) = info.location().map_or(("<unknown>".to_string(), 0), |l| (l.file().to_string(), l.line()));
+        let mut message = message;
+        // a panic raised inside a dependency (registry crate / std): attribute it to the innermost
+        // caller that is either trippy code or harness code, from the backtrace
+        let in_repo = file.contains("/repo/crates/") || file.starts_with("crates/");
+        let in_harness = file.starts_with("src/") || file.contains("/verif/harness/src/");
+        if !in_repo && !in_harness {
+            let bt = std::backtrace::Backtrace::force_capture().to_string();
+            let mut prev_fn = String::new();
+            for l in bt.lines() {
+                let t = l.trim();
+                if let Some(at) = t.strip_prefix("at ") {
+                    let is_repo = at.contains("/repo/crates/");
+                    let is_harness = at.starts_with("./src/") || at.starts_with("src/") || at.contains("/verif/harness/src/");
+                    if is_repo || is_harness {
+                        if is_repo {
+                            let mut parts = at.rsplitn(3, ':');
+                            let _col = parts.next();
+                            let ln = parts.next().and_then(|x| x.parse::<u32>().ok()).unwrap_or(0);
+                            let f = parts.next().unwrap_or(at).to_string();
+                            message = format!("(raised in a dependency at {file}:{line}, called from {prev_fn}) {message}");
+                            file = f;
+                            line = ln;
+                        }
+                        break;
+                    }
+                } else {
+                    prev_fn = t.to_string();
+                }
+            }
+        }
         if let Ok(mut g) = LAST_PANIC_ANYWHERE.lock() {
             *g = Some(Panic { message: message.clone(), file: file.clone(), line });
         }
